@@ -15,6 +15,8 @@
  * z = after Final every byte of the real context object is zero (the object is filled with 0xAA
  * before Init so that a missing wipe cannot go unnoticed).
  */
+/* single cases of this driver may run over gigabytes (the > 2^32-byte stream, the very long messages) */
+#define DRV_LINE_CPU_S 300
 #include "drv_common.h"
 #include "sha256.h"
 #include "sha1.h"
